@@ -34,7 +34,7 @@ RULE_TEXT = 'one obligation per column, per random draw, per selection of the sc
 
 def r1_fixed_cost(repo, rep, f, ctx):
   g, rd = ctx.g, ctx.rd
-  calls = [(n, c) for n in g.nodes if n.kind == 'stmt' for c in au.calls_in(n.ast) if norm(c.func) == 'self.tbr_response.summary']
+  calls = [(n, c) for n in g.nodes if n.kind == 'stmt' for c in au.calls_in(n.ast) if norm(rd.expand(n, c.func)[0]) == 'self.tbr_response.summary']
   if len(calls) != 1:
     rep.undecided('R1/fixed-cost-algebra', 'TBRiROAS.summary', 'expected one call of tbr_response.summary', f.loc())
     return None
@@ -129,7 +129,13 @@ def r1b_variable_cost(repo, rep, f, ctx):
       rep.violation('R1/variable-cost-table', f.qualname, 'column %s missing' % col, 'the variable-cost report has no %s column' % col, f.loc())
       continue
     for n in cols[col]:
-      t = cn.text(rd.expand(n, n.ast.value, depth=12, keep=keep)[0])
+      ex_ = rd.expand(n, n.ast.value, depth=12, keep=keep)[0]
+      t = cn.text(ex_)
+      if isinstance(ex_, ast.IfExp) and norm(ex_.test) in ('tails == 1', 'tails != 1', 'tails == 2', 'tails != 2', '1 == tails'):
+        # one statement choosing by the number of tails: every alternative must be an admissible form
+        leaves = [cn.text(ex_.body), cn.text(ex_.orelse)]
+        if all(x in forms for x in leaves):
+          t = leaves[0]
       n_ok += 1
       rep.check(t in forms, 'R1/variable-cost-table', 'variable-cost %s = %s' % (col, t[:60]), f.qualname, '%s = %s' % (col, t[:140]),
                 'in the variable-cost report %s is `%s`; expected %s (ratio of the paired response and cost simulations / quantities of the two posteriors)'
@@ -200,16 +206,19 @@ def r3_scenario(repo, rep):
   rep.fn(f)
   ctx = FuncCtx.of(f)
   rets = [n for n in ctx.g.nodes if n.kind == 'return' and n.ast.value is not None and not isinstance(n.ast.value, ast.Attribute)]
+  def canonical(e):
+    """The predicate with the order of magnitude on the left: `-10 > order` is `order < -10`."""
+    forms = sorted(x for x in pathcond.rel_forms(e, True) if x.startswith('utils.float_order(') or x.startswith('float_order('))
+    return forms[0] if forms else norm(e)
   exprs = []
   for r in rets:
-    t = norm(ctx.rd.expand(r, r.ast.value, depth=12)[0])
-    exprs.append(t)
+    exprs.append(canonical(ctx.rd.expand(r, r.ast.value, depth=12)[0]))
   main = [t for t in exprs if 'float_order' in t]
   if not main:
     # cached variant: the value is stored in a field first
     for n in ctx.g.nodes:
       if n.kind == 'stmt' and isinstance(n.ast, ast.Assign) and 'float_order' in norm(ctx.rd.expand(n, n.ast.value, depth=12)[0]):
-        main.append(norm(ctx.rd.expand(n, n.ast.value, depth=12)[0]))
+        main.append(canonical(ctx.rd.expand(n, n.ast.value, depth=12)[0]))
   if len(main) != 1:
     rep.undecided('R3/scenario', '_is_fixed_cost_scenario', 'predicate not found', f.loc())
     return
@@ -274,7 +283,7 @@ def run(repo, rep, tier):
   tbrrules.kwarg_subdict_rule(repo, rep, 'R3/scenario')
   r4_bounds(repo, rep, f, ctx)
   # the branch is chosen by the predicate
-  tests = [n for n in ctx.g.nodes if n.kind == 'test' and norm(n.expr) == 'self._is_fixed_cost_scenario()']
+  tests = [n for n in ctx.g.nodes if n.kind == 'test' and norm(au.strip_not(ctx.rd.expand(n, n.expr)[0])[0]) == 'self._is_fixed_cost_scenario()']
   rep.check(len(tests) == 1, 'R3/scenario', 'the report branch is chosen by _is_fixed_cost_scenario()', f.qualname, '; '.join(norm(n.expr) for n in tests),
             'the fixed/variable branch is not selected by _is_fixed_cost_scenario()', f.loc())
   rep.assume('level in (0, 1) (documented), tails in {1, 2} (guard)')
